@@ -46,6 +46,7 @@ type c05Writer struct {
 	parentOf  int
 	push      int // >0: a pushed revision (PutExistingRev) adding this many new revisions on top of parentOf's revision (parentOf<0: a disconnected branch)
 	history   []string
+	badGen    int // pushed revision whose generations do NOT rise: 1 = first new revision at its parent's generation, 2 = last new revision at its predecessor's generation, 3 = first new revision below its parent's generation
 	deleted   bool
 	reject    bool
 	failAfter bool // fail AddRaw of out-of-line revision bodies while this writer runs
@@ -218,8 +219,24 @@ func (e *c05Env) runWriter(c *c05Case, docid string, wi int, isMain bool) {
 			gen0 = 0
 		}
 		w.history = nil
+		gens := make([]int, w.push+1) // gens[k] = generation of the k-th new revision (oldest = 1)
+		for k := 1; k <= w.push; k++ {
+			gens[k] = gen0 + k
+		}
+		switch {
+		case w.badGen == 1 && gen0 >= 1:
+			for k := 1; k <= w.push; k++ {
+				gens[k] = gen0 + k - 1
+			}
+		case w.badGen == 2 && w.push >= 2:
+			gens[w.push] = gens[w.push-1]
+		case w.badGen == 3 && gen0 >= 2:
+			for k := 1; k <= w.push; k++ {
+				gens[k] = gen0 + k - 2
+			}
+		}
 		for k := w.push; k >= 1; k-- {
-			w.history = append(w.history, fmt.Sprintf("%d-%032x", gen0+k, w.tag*16+k))
+			w.history = append(w.history, fmt.Sprintf("%d-%032x", gens[k], w.tag*16+k))
 		}
 		if w.parentRev != "" {
 			w.history = append(w.history, w.parentRev)
@@ -421,6 +438,133 @@ func (e *c05Env) runCase(rec *vRecorder, stream string, c *c05Case, desc string)
 		rec.Fail("no_conflict_single_live_leaf", "conflict-created", map[string]any{"case": desc, "live_leaves": liveLeaves}, "conflict-free database ended with several live leaves")
 	}
 
+	// ---- linearizability: replay the acknowledged writes one after another in commit order (Go side, from the
+	// writers' own requests and results) and compare with the stored tree ----
+	type c05Node struct {
+		parent  string
+		deleted bool
+	}
+	replay := map[string]c05Node{}
+	hasChild := func(t map[string]c05Node, id string) bool {
+		for _, n := range t {
+			if n.parent == id {
+				return true
+			}
+		}
+		return false
+	}
+	// winningRevision's order: live before deleted, then generation, then digest
+	beats := func(a string, an c05Node, b string, bn c05Node) bool {
+		if an.deleted != bn.deleted {
+			return !an.deleted
+		}
+		ra, rb := c05ParseRev(a), c05ParseRev(b)
+		if ra.gen != rb.gen {
+			return ra.gen > rb.gen
+		}
+		return ra.dig.Cmp(rb.dig) > 0
+	}
+	winnerOf := func(t map[string]c05Node) string {
+		win := ""
+		for id, n := range t {
+			if hasChild(t, id) {
+				continue
+			}
+			if win == "" || beats(id, n, win, t[win]) {
+				win = id
+			}
+		}
+		return win
+	}
+	addedRevs := 0
+	for _, wi := range commitOrder {
+		w := c.writers[wi]
+		if w.push == 0 {
+			par := w.parentRev
+			if par == "" {
+				// a Put without _rev: on an empty tree it creates the root; otherwise its parent is a tombstone
+				// it found as the current revision (db.Put remembers that choice across CAS retries, so at commit
+				// time the tombstone need not be the current revision any more -- w_matchrev in the model)
+				par = treeDesc[w.rev]
+				if par == "" && len(replay) > 0 {
+					rec.Fail("tree_serial_replay", sigOr("plan-not-on-serial-tree"), map[string]any{"case": desc, "writer": wi, "rev": w.rev}, "Put without parent acknowledged as a new root although the serial tree is not empty")
+				}
+				if n, ok := replay[par]; par != "" && ok && !n.deleted {
+					rec.Fail("tree_serial_replay", sigOr("plan-not-on-serial-tree"), map[string]any{"case": desc, "writer": wi, "rev": w.rev, "parent": par}, "Put without parent acknowledged as the child of a live revision")
+				}
+			}
+			if par != "" {
+				if _, ok := replay[par]; !ok || hasChild(replay, par) {
+					rec.Fail("tree_serial_replay", sigOr("plan-not-on-serial-tree"), map[string]any{"case": desc, "writer": wi, "rev": w.rev, "parent": par}, "Put acknowledged on a parent that is not a leaf of the tree the earlier commits produced")
+				}
+			}
+			replay[w.rev] = c05Node{par, w.deleted}
+			addedRevs++
+		} else {
+			known := len(w.history)
+			par := ""
+			for k, h := range w.history {
+				if _, ok := replay[h]; ok {
+					known, par = k, h
+					break
+				}
+			}
+			if known == 0 {
+				rec.Fail("tree_serial_replay", sigOr("plan-not-on-serial-tree"), map[string]any{"case": desc, "writer": wi, "history": w.history}, "push acknowledged although the serial tree already has its revision")
+			}
+			for k := known - 1; k >= 0; k-- {
+				replay[w.history[k]] = c05Node{par, k == 0 && w.deleted}
+				par = w.history[k]
+				addedRevs++
+			}
+		}
+	}
+	if doc != nil || len(replay) > 0 {
+		same := doc != nil && len(replay) == len(doc.History)
+		if same {
+			for id, n := range replay {
+				ri := doc.History[id]
+				if ri == nil || ri.Parent != n.parent || ri.Deleted != n.deleted {
+					same = false
+				}
+			}
+		}
+		if !same {
+			rec.Fail("tree_serial_replay", sigOr("tree-not-serial-replay"), map[string]any{"case": desc, "replayed": fmt.Sprint(replay), "stored": treeRows},
+				"the stored revision tree is not what the acknowledged writes add when run one after another in commit order")
+		}
+	}
+	if doc != nil {
+		tombstones, roots, leafCount := 0, 0, 0
+		stored := map[string]c05Node{}
+		for id, ri := range doc.History {
+			stored[id] = c05Node{ri.Parent, ri.Deleted}
+			if ri.Deleted {
+				tombstones++
+			}
+			if ri.Parent == "" {
+				roots++
+			} else if c05ParseRev(id).gen <= c05ParseRev(ri.Parent).gen {
+				rec.Fail("generation_above_parent", "generation-not-above-parent", map[string]any{"case": desc, "rev": id, "parent": ri.Parent}, "stored revision's generation is not above its parent's")
+			}
+		}
+		leafCount = len(doc.History.GetLeaves())
+		// conflict-free mode without tombstones: a single chain whose length is the number of revisions the acknowledged writes added
+		if !c.allowConflicts && tombstones == 0 && (roots != 1 || leafCount != 1 || len(doc.History) != addedRevs) {
+			rec.Fail("conflict_free_chain", sigOr("conflict-free-not-a-chain"), map[string]any{"case": desc, "roots": roots, "leaves": leafCount, "revisions": len(doc.History), "added_by_acks": addedRevs},
+				"conflict-free database without tombstones: the history is not a single chain of the revisions added by acknowledged writes")
+		}
+		// the stored current revision is the maximal leaf; the stored sequence is the last commit's
+		if want := winnerOf(stored); want != finCur {
+			rec.Fail("current_is_max_leaf", sigOr("current-not-max-leaf"), map[string]any{"case": desc, "current": finCur, "max_leaf": want}, "stored current revision is not the maximal leaf of the stored tree")
+		}
+		if len(commitOrder) > 0 {
+			if lw := c.writers[commitOrder[len(commitOrder)-1]]; lw.seq-base0 != finSeq {
+				rec.Fail("sequence_is_last_commit", sigOr("stored-sequence-not-last-commit"), map[string]any{"case": desc, "stored": finSeq, "last_commit": lw.seq - base0}, "stored sequence is not the last acknowledged write's")
+			}
+		}
+	}
+
 	// ---- Coq case ----
 	var ops, outs, tab []string
 	seenTab := map[string]bool{}
@@ -487,6 +631,11 @@ func (e *c05Env) runCase(rec *vRecorder, stream string, c *c05Case, desc string)
 	nontrivial := strings.Contains(kinds, "co") || strings.Contains(kinds, "fo") || strings.Contains(kinds, "fa") || (c.main >= 0 && c.writers[c.main].attempts > 1)
 	rec.Case(stream, "write_schedule", coq, map[string]any{"desc": desc, "outcomes": kinds, "schedule": sched, "released": released, "final_seq": finSeq}, nontrivial)
 	rec.Err("outcomes:" + kinds)
+	for _, w := range c.writers {
+		if w.ran && w.push > 0 && w.badGen > 0 {
+			rec.Err(fmt.Sprintf("bad_generation_push(kind %d):%s", w.badGen, w.outcome))
+		}
+	}
 	if c.main >= 0 {
 		rec.Size(fmt.Sprintf("main_attempts=%d", c.writers[c.main].attempts))
 	}
@@ -503,6 +652,11 @@ func TestVerifC05(t *testing.T) {
 	mkPush := func(tag, ancOf, nNew int, flags string) *c05Writer {
 		return &c05Writer{tag: tag, parentOf: ancOf, push: nNew, deleted: strings.Contains(flags, "d"), reject: strings.Contains(flags, "r"),
 			failAfter: strings.Contains(flags, "a"), failWrite: strings.Contains(flags, "w")}
+	}
+	mkBad := func(tag, ancOf, nNew, bad int, flags string) *c05Writer {
+		w := mkPush(tag, ancOf, nNew, flags)
+		w.badGen = bad
+		return w
 	}
 	mk := func(tag, parentOf int, flags string) *c05Writer {
 		return &c05Writer{tag: tag, parentOf: parentOf, deleted: strings.Contains(flags, "d"), reject: strings.Contains(flags, "r"),
@@ -536,6 +690,27 @@ func TestVerifC05(t *testing.T) {
 		envs[ac].runCase(rec, "corpus", &c05Case{allowConflicts: ac, main: -1,
 			writers: []*c05Writer{mk(1, -1, ""), mkPush(2, 0, 2, ""), mkPush(2, 0, 2, ""), mkPush(3, 0, 1, ""), mkPush(4, -1, 2, ""), mkPush(5, 3, 1, "d")},
 			setup:   []int{0, 1, 2, 3, 4, 5}}, "push-variants")
+	}
+
+	// the known finding's schedule (C05_Refuted.v res_ops), deterministically: a live child of a tombstone is prepared,
+	// a deletion of the same tombstone leaf is acknowledged in between, the resurrection write is not CAS-checked
+	envs[true].runCase(rec, "corpus", &c05Case{allowConflicts: true,
+		writers: []*c05Writer{mkPush(1, -1, 2, "d"), mk(2, 0, ""), mk(3, 0, "d")},
+		setup:   []int{0}, main: 1, inject: map[int][]int{1: {2}}}, "tombstone-resurrection-race")
+
+	// RevTree.addRevision's generation check: pushed revisions whose generation is not above their parent's are
+	// refused with an error and leave no trace -- alone, after good pushes, and racing with a REST writer that
+	// carries a reserved sequence
+	for _, ac := range []bool{true, false} {
+		envs[ac].runCase(rec, "corpus", &c05Case{allowConflicts: ac, main: -1,
+			writers: []*c05Writer{mk(1, -1, ""), mk(2, 0, ""), mkBad(3, 1, 1, 1, ""), mkBad(4, 1, 2, 1, ""), mkBad(5, 1, 2, 2, ""), mkBad(6, 1, 1, 3, ""), mkBad(7, -1, 2, 2, ""), mkBad(8, 0, 1, 1, "d"), mkPush(9, 1, 2, ""), mkBad(10, 8, 1, 1, "")},
+			setup:   []int{0, 1, 2, 3, 4, 5, 6, 7, 8, 9}}, "push-generation-not-above-parent")
+		envs[ac].runCase(rec, "corpus", &c05Case{allowConflicts: ac,
+			writers: []*c05Writer{mk(1, -1, ""), mk(2, 0, ""), mkBad(3, 0, 1, 1, ""), mkBad(4, 0, 2, 2, ""), mk(5, 0, "")},
+			setup:   []int{0}, main: 1, inject: map[int][]int{1: {2, 3, 4}}}, "bad-generation-push-inside-race")
+		envs[ac].runCase(rec, "corpus", &c05Case{allowConflicts: ac,
+			writers: []*c05Writer{mk(1, -1, ""), mkBad(2, 0, 2, 2, ""), mk(3, 0, ""), mkBad(4, 2, 1, 1, "")},
+			setup:   []int{0}, main: 1, inject: map[int][]int{1: {2}}, after: []int{3}}, "bad-generation-push-loses-race")
 	}
 
 	// the same revision pushed by two writers at once (two replicators): the loser reserved a sequence, lost the
@@ -596,7 +771,11 @@ func TestVerifC05(t *testing.T) {
 				}
 			}
 			if rnd.Chance(30) {
-				c.writers = append(c.writers, mkPush(j+1, par, 1+rnd.Intn(2), flags))
+				pw := mkPush(j+1, par, 1+rnd.Intn(2), flags)
+				if rnd.Chance(18) {
+					pw.badGen = 1 + rnd.Intn(3)
+				}
+				c.writers = append(c.writers, pw)
 			} else {
 				c.writers = append(c.writers, mk(j+1, par, flags))
 			}
